@@ -55,7 +55,33 @@ def check_history(init, steps, obs):
     for k, ((kind, label), t) in enumerate(zip(steps, obs)):
         if t is None:
             return bad, nchk, 'dump missing at step %d' % k
-        if kind == 'mod':
+        if kind == 'seq':
+            # one command line made of undos, redos and trivially modelled edits (x in front of the first line, y at the end of the
+            # last): only the text after the whole line is seen, the steps in between follow from the snapshot stack
+            nchk += 1
+            new = []
+            exps = []
+            for stack, cur in states:
+                for op in label.split('|'):
+                    if op == 'u':
+                        cur = cur - 1 if cur > 0 else cur
+                    elif op == 'redo':
+                        cur = cur + 1 if cur + 1 < len(stack) else cur
+                    else:
+                        base = stack[cur]
+                        if not base or not base.endswith(b'\n'):
+                            return bad, nchk, 'cut: trivially modelled edit on an empty text'
+                        X = (b'x' + base) if op == '1s/^/x/' else (base[:-1] + b'y\n')
+                        stack = stack[:cur + 1] + (X,)
+                        cur += 1
+                exps.append(stack[cur])
+                if stack[cur] == t:
+                    new.append((stack, cur))
+            if not new:
+                bad.append(('seq:text', 'command line %r (#%d): text is %r, expected %r' % (label, k, common.show(t, 200), common.show(exps[0], 200))))
+                return bad, nchk, 'violation'
+            states = new
+        elif kind == 'mod':
             new = []
             for stack, cur in states:
                 if t == stack[cur]:
@@ -98,10 +124,15 @@ def ex_history(R):
         # one command that logs more splices than the undo log holds before it grows (128, 256, ...): undone and redone as a whole
         lines = ['l%d a' % i for i in range(R.choice([120, 129, 200, 260, 520]))]
         n = len(lines)
+    aw = R.random() < 0.08
+    if aw:
+        script = b'se aw\n' + script       # autowrite: commands that leave the editor's hands (:!cmd) save the buffer first; the history stays
     for k in range(R.randint(5, 30)):
         x = R.random()
         if x < 0.55 or not steps:
             cmd = gen.ex_modify(R, max(n, 1), 'mixed')
+            if aw and R.random() < 0.3:
+                cmd = R.choice([b'!true\n', b'!true\n', b'!false\n', b'w\n'])
             if big:
                 cmd = R.choice([b'%s/^/A/\n', b'g/./s/$/B/\n', b'1,140s/l/L/\n', b'%s/a/bb/\n', b'g/l/s/ / _/\n', b'2,$d\n', b'1,$!cat\n'])
             elif R.random() < 0.06:
@@ -113,6 +144,12 @@ def ex_history(R):
                 one = [b'1s/^/x/', b'$s/$/y/', b'1d', b'%s/a/b/g', b'1y|$pu', b'$s/./&&/']
                 wr = R.choice([b'1,1w! other', b'w! other', b'.w !cat', b'1w! other2', b'$w !tr a-z A-Z', b'wa', b'x other3' if False else b'1,$w! other'])
                 cmd = R.choice([R.choice(one) + b'|' + wr + b'|' + R.choice(one), b'g/./s/$/!/|' + wr, b'g/a/s/a/b/|.w! other', b'v/zzz/.w !cat\n1s/^/k/'.split(b'\n')[0] + b'|s/^/k/']) + b'\n'
+            if R.random() < 0.08:
+                # undo / redo inside a command line that also edits (the steps of one line share a sequence number only while they edit)
+                seq = R.choice(['1s/^/x/|u', 'redo|$s/$/y/', 'u|1s/^/x/', '$s/$/y/|u|redo', 'u|u', 'redo|redo', '1s/^/x/|u|$s/$/y/', 'redo|1s/^/x/|u', 'u|redo|$s/$/y/'])
+                steps.append(('seq', seq))
+                script += seq.encode() + b'\nw! d%d\n' % k
+                continue
             if cmd.count(b'\n') == 1 and R.random() < 0.2:
                 # a command line that edits and then fails: still one command, hence one undo step
                 cmd = cmd[:-1] + R.choice([b'|99999p', b'|r /nonexistent/file', b'|nosuchcommand', b"|'zp", b'|/no such text anywhere/p']) + b'\n'
@@ -206,7 +243,7 @@ def run_history(args):
     bad, nchk, cut = check_history(init, steps, obs)
     if bad:
         return ('violation', bad[0], nchk, len(steps), wit)
-    if mode == 'ex' and all(o is not None for o in obs):
+    if mode == 'ex' and all(o is not None for o in obs) and not script.startswith(b'se aw'):      # (with autowrite a :!cmd is refused or not depending on the second in which the previous autowrite happened: see DESIGN 7.2)
         # second run without the dumps after modifying steps: the texts after every undo/redo must be the same
         r2, d2 = common.run_ex(vi, sparse_script(script, steps), files={'f1': gen.buf_bytes(lines, idx % 5 != 0), 'f2': b'r1\nr2\n', 'f3': b'n1\nn2 no newline'}, timeout=60)
         obs2 = [common.readf(d2, 'd%d' % k) for k in range(len(steps))]
